@@ -141,34 +141,48 @@ func needsInitCheckLocked(md protoreflect.MessageDescriptor) (has bool) {
 		//
 		// If has is false, we've previously determined that it can never
 		// be uninitialized.
-		//
-		// If has is not a bool, we've just encountered a cycle in the
-		// message graph. In this case, it is safe to return false: If
-		// the message does have required fields, we'll detect them later
-		// in the graph traversal.
-		has, ok := v.(bool)
-		return ok && has
+		return v.(bool)
 	}
-	needsInitCheckMap.Store(md, struct{}{}) // avoid cycles while descending into this message
-	defer func() {
-		needsInitCheckMap.Store(md, has)
-	}()
-	if md.RequiredNumbers().Len() > 0 {
-		return true
+	seen := make(map[protoreflect.MessageDescriptor]bool)
+	has = needsInitCheckWalk(md, seen)
+	if !has {
+		// Nothing reachable from md can be uninitialized, which settles
+		// every message visited on the way as well.
+		for md := range seen {
+			needsInitCheckMap.Store(md, false)
+		}
 	}
-	if md.ExtensionRanges().Len() > 0 {
-		return true
+	return has
+}
+
+// needsInitCheckWalk reports whether a message that needs init checks is
+// reachable from md. A true result is final and is recorded. A false result
+// is final only for the message the traversal started from: a message reached
+// through a cycle in the message graph may have been cut short at a message
+// that is still being examined.
+func needsInitCheckWalk(md protoreflect.MessageDescriptor, seen map[protoreflect.MessageDescriptor]bool) bool {
+	if v, ok := needsInitCheckMap.Load(md); ok {
+		return v.(bool)
 	}
-	for i := 0; i < md.Fields().Len(); i++ {
+	if seen[md] {
+		// A cycle in the message graph: if the message does have required
+		// fields, we'll detect them later in the graph traversal.
+		return false
+	}
+	seen[md] = true
+	has := md.RequiredNumbers().Len() > 0 || md.ExtensionRanges().Len() > 0
+	for i := 0; !has && i < md.Fields().Len(); i++ {
 		fd := md.Fields().Get(i)
 		// Map keys are never messages, so just consider the map value.
 		if fd.IsMap() {
 			fd = fd.MapValue()
 		}
-		fmd := fd.Message()
-		if fmd != nil && needsInitCheckLocked(fmd) {
-			return true
+		if fmd := fd.Message(); fmd != nil {
+			has = needsInitCheckWalk(fmd, seen)
 		}
 	}
-	return false
+	if has {
+		needsInitCheckMap.Store(md, true)
+	}
+	return has
 }
